@@ -153,9 +153,32 @@ class _TagImpure(ast.NodeTransformer):
         return node
 
 
+class _CanonCompare(ast.NodeTransformer):
+    """one orientation for order comparisons everywhere (also inside call arguments such as np.all(x >= lb)):
+    `a >= b` -> `b <= a`, `a > b` -> `b < a`; `not a <= b` style negations of a single comparison are folded."""
+
+    def visit_Compare(self, node: ast.Compare):
+        self.generic_visit(node)
+        if len(node.ops) == 1 and isinstance(node.ops[0], (ast.GtE, ast.Gt)):
+            op = ast.LtE() if isinstance(node.ops[0], ast.GtE) else ast.Lt()
+            return ast.copy_location(ast.Compare(left=node.comparators[0], ops=[op], comparators=[node.left]), node)
+        return node
+
+    def visit_UnaryOp(self, node: ast.UnaryOp):
+        self.generic_visit(node)
+        if isinstance(node.op, ast.Not) and isinstance(node.operand, ast.Compare) and len(node.operand.ops) == 1:
+            c = node.operand
+            flip = {ast.Is: ast.IsNot, ast.IsNot: ast.Is, ast.Eq: ast.NotEq, ast.NotEq: ast.Eq, ast.In: ast.NotIn, ast.NotIn: ast.In}
+            t = type(c.ops[0])
+            if t in flip:
+                return ast.copy_location(ast.Compare(left=c.left, ops=[flip[t]()], comparators=c.comparators), node)
+        return node
+
+
 def resolve(expr: ast.AST, env: Dict[str, ast.AST]) -> ast.AST:
     e = _TagImpure().visit(copy.deepcopy(expr))
-    return ast.fix_missing_locations(_Subst(env).visit(e))
+    e = _Subst(env).visit(e)
+    return ast.fix_missing_locations(_CanonCompare().visit(e))
 
 
 def mk_call(name: str, args: List[ast.AST]) -> ast.Call:
